@@ -13,7 +13,7 @@ use chumsky::span::SimpleSpan;
 
 pub const ID: &str = "C20";
 
-pub const RULE: &str = "cases = (grammar, input, error type): the union of all grammar classes of this harness (well-formed by construction: repetition items consume, recursion guarded; features memoization / pratt / regex / extension on), with failing parsers wrapped in map_err / recover_with / labelled / memoized at high weight, built with each of Rich, Simple, Cheap and the zero-sized EmptyErr, on &str (alphabet symbols, derived sentences, empty and truncated inputs, and random strings over the full Unicode range incl. combining marks and 4-byte characters adjacent to backtracking points) and on &[u8] (ASCII-only grammars, arbitrary bytes); a text sub-check runs every text::* parser, regex and the Graphemes input on random Unicode / byte strings. Oracle: the call returns -- no panic (caught and reported with its location), no abort / SIGSEGV / stack overflow (the whole check runs in a child process; a signal-killed child is a violation and is re-run single-threaded to pin the case), no watchdog expiry (inconclusive) -- and the result obeys the ParseResult contract (no output => >= 1 error, ...); every reported span lies inside the input with start <= end on char boundaries. Polynomial time, deterministic form: a counting inspector aborts a parse that consumes more than 64 x (reference node evaluations + input length + 16) tokens (the reference evaluates the same PEG with the same backtracking). NON-TRIVIAL = the parse failed or recovered inside a wrapper (map_err, recover_with, labelled, memoized, try_map, custom), or the input contains a multi-byte character, or is empty / truncated; distinct = distinct (sub-check, grammar, input).";
+pub const RULE: &str = "cases = (grammar, input, error type): the union of all grammar classes of this harness (well-formed by construction: repetition items consume, recursion guarded; features memoization / pratt / regex / extension on), with failing parsers wrapped in map_err / recover_with / labelled / memoized at high weight, built with each of Rich, Simple, Cheap and the zero-sized EmptyErr, on &str (alphabet symbols, derived sentences, empty and truncated inputs, and random strings over the full Unicode range incl. combining marks and 4-byte characters adjacent to backtracking points) and on &[u8] (ASCII-only grammars, arbitrary bytes), and on token trees with gapped spans (nested_in at arbitrary nodes, Rich and EmptyErr: a failing NESTED parse under the wrappers); a text sub-check runs every text::* parser, regex and the Graphemes input on random Unicode / byte strings. Oracle: the call returns -- no panic (caught and reported with its location), no abort / SIGSEGV / stack overflow (the whole check runs in a child process; a signal-killed child is a violation and is re-run single-threaded to pin the case), no watchdog expiry (inconclusive) -- and the result obeys the ParseResult contract (no output => >= 1 error, ...); every reported span lies inside the input with start <= end on char boundaries. Polynomial time, deterministic form: a counting inspector aborts a parse that consumes more than 64 x (reference node evaluations + input length + 16) tokens (the reference evaluates the same PEG with the same backtracking). NON-TRIVIAL = the parse failed or recovered inside a wrapper (map_err, recover_with, labelled, memoized, try_map, custom), or the input contains a multi-byte character, or is empty / truncated; distinct = distinct (sub-check, grammar, input).";
 
 pub const ASSUMPTIONS: &[&str] = &[
     "a panic raised by the library's own progress assertions on an ill-formed grammar would be by design; generators only produce grammars whose repetition items consume input",
@@ -92,7 +92,51 @@ fn one_type<'s, I: Kind<'s>, R: Er<'s, I>>(g: &G, mk: &dyn Fn() -> I, budget: u6
     Ok((shape.0, shape.1, work))
 }
 
+/// token-tree inputs (nested_in): the input string is a bracketed token string as in C16
+fn check_nested(sub: &str, g: &G, input: &str, l: &mut Local) -> CaseRes {
+    let toks: Vec<char> = input.chars().collect();
+    let case = || Case::new(ID, sub, g, &toks);
+    let (nodes, eoi) = parse_tree(&toks, 3);
+    let r = reference::eval_tree(g, &nodes, RefOpts::default());
+    if r.stats.fuel_out || r.stats.evals >= 300_000 {
+        l.bump("skipped_reference_out_of_fuel");
+        return Ok(());
+    }
+    let budget = 64 * (r.stats.evals + toks.len() as u64 + 16);
+    let tv = tt_from_nodes(&nodes);
+    let tsl: &[TTPair] = &tv;
+    let eoi_sp = SimpleSpan::from(eoi.0..eoi.1);
+    let res = (|| {
+        let a = one_type::<TTIn, chumsky::error::Rich<TT, SimpleSpan>>(g, &|| tt_input(tsl, eoi_sp), budget, usize::MAX, &|_| true)?;
+        one_type::<TTIn, EmptyErr>(g, &|| tt_input(tsl, eoi_sp), budget, usize::MAX, &|_| true)?;
+        Ok(a)
+    })();
+    l.evals += 4;
+    let (ho, nerr, work) = match res {
+        Ok(x) => x,
+        Err((sig, msg)) => return fail(case, &sig, msg),
+    };
+    l.bump("nested_input");
+    if r.stats.nested_inner_failed > 0 {
+        l.bump("nested_inner_parse_failed");
+    }
+    l.bump(if ho && nerr == 0 {
+        "accepted"
+    } else if ho {
+        "recovered"
+    } else {
+        "rejected"
+    });
+    l.add("tokens_consumed_total", work);
+    let nontrivial = r.stats.nested_inner_failed > 0 || toks.is_empty();
+    l.note(g, &toks, sub, nontrivial, || format!("has_output={} errors={} tokens consumed={} (budget {})", ho, nerr, work, budget));
+    Ok(())
+}
+
 fn check_inner(sub: &str, g: &G, input: &str, l: &mut Local) -> CaseRes {
+    if sub == "nested" {
+        return check_nested(sub, g, input, l);
+    }
     let toks: Vec<char> = input.chars().collect();
     let case = || Case::new(ID, sub, g, &toks);
     let r = reference::eval(g, &toks, RefOpts::default());
@@ -249,7 +293,36 @@ fn unicode_string(t: &mut Tape, alpha: &[char], max: usize) -> String {
 
 pub fn decode(tape: &[u32]) -> (G, String, &'static str) {
     let mut t = Tape::new(tape);
-    let kind = t.weighted(&[5, 2]);
+    let kind = t.weighted(&[5, 2, 1]);
+    if kind == 2 {
+        // token trees: nested_in at arbitrary nodes, failing parsers (incl. failing NESTED parses) under the wrappers
+        let (g, alpha) = {
+            let mut c = super::c16::cfg();
+            c.map_err = true;
+            c.label = true;
+            c.memo = true;
+            let mut gg = GGen::new(&mut t, c);
+            let d = 2 + gg.t.pick(3) as u32;
+            let mut g = gg.gen(d, false);
+            if !g.any_node(&|n| matches!(n, G::NestedIn(_))) {
+                let inner = gg.gen(d.min(3), true);
+                g = G::Or(b(G::NestedIn(b(inner))), b(g));
+            }
+            match gg.t.pick(6) {
+                0 => g = G::MapErr(b(g), 90, false),
+                1 => g = G::Recover(b(g), gg.gen_strat_pub(2, false)),
+                2 => g = G::Labelled(b(g), "TOP".into(), true),
+                3 => g = G::Memo(b(g)),
+                _ => {}
+            }
+            (g, gg.alpha.clone())
+        };
+        let mut sym = alpha.clone();
+        sym.push(GOPEN);
+        sym.push(GCLOSE);
+        let input: String = gen_input(&g, &mut t, &sym, 12).into_iter().collect();
+        return (g, input, "nested");
+    }
     let (g, alpha) = {
         let mut c = GenCfg::all();
         c.track = false;
@@ -396,7 +469,7 @@ pub fn run_inner(tier: Tier, seed: u64) -> i32 {
         }
         Ok(())
     });
-    let n = ctx.pick(600_000, 8_000_000);
+    let n = ctx.pick(1_500_000, 10_000_000);
     ctx.par_random(n, 220, 20, |tape, l| {
         let (g, input, sub) = decode(tape);
         debug_assert!(wf(&g), "ill-formed: {}", render(&g));
@@ -452,7 +525,7 @@ pub fn run_inner(tier: Tier, seed: u64) -> i32 {
         });
     }
     ctx.finish(&check_case, RULE, ASSUMPTIONS, &|l| {
-        for k in ["failed_or_recovered_inside_a_wrapper", "multi_byte_input", "empty_input", "byte_input", "text_strings_multi_byte", "recovered", "accepted", "rejected"] {
+        for k in ["failed_or_recovered_inside_a_wrapper", "multi_byte_input", "empty_input", "byte_input", "nested_input", "nested_inner_parse_failed", "text_strings_multi_byte", "recovered", "accepted", "rejected"] {
             if l.counters.get(k).copied().unwrap_or(0) == 0 {
                 return Err(format!("class '{}' is empty", k));
             }
